@@ -106,7 +106,7 @@ func workerMain(args []string) {
 			}
 			ic := types.ImageConfiguration{
 				Contents: types.ImageContents{
-					RuntimeRepositories: []string{*repo},
+					RuntimeRepositories: strings.Split(*repo, ","),
 					Keyring:             keyring,
 					Packages:            strings.Split(*pkgs, ","),
 				},
